@@ -99,6 +99,23 @@ def run(e: Engine, rep: Report):
     x6(e, rep)
     x7(e, rep)
     x8(e, rep)
+    from . import c09
+    rep.rule('X9', '= C09-G8: the receiving side never fails because of HOW '
+             'MUCH is buffered (a pipelined MAIL + n x RCPT + DATA batch of '
+             'short lines is a large buffer without a long line)')
+    c09.g8(e, rep, 'X9')
+    rep.rule('X10', 'address provenance in the HTTP edge: sender and '
+             'recipients are the base64-decoded header values and nothing '
+             'else (no normalisation / case folding / trimming of the '
+             'decoded address: table ADDRESS_CUTTERS)')
+    x10(e, rep)
+    rep.rule('X11', 'who-may-refuse: before their callback MAIL and RCPT '
+             'answer only with the protocol-level refusals of table '
+             'PRE_CALLBACK_REFUSALS (syntax, sequence, unknown parameter, '
+             'declared size): accepting or refusing an address is the '
+             'application\'s decision')
+    rep.tables.add('c06.PRE_CALLBACK_REFUSALS')
+    x11(e, rep)
     rep.floor('X1', 4, 'command framing obligations')
     rep.floor('X4', 6, 'HTTP agreement obligations')
 
@@ -638,7 +655,8 @@ ADDRESS_CUTTERS = {'partition', 'rpartition', 'split', 'rsplit', 'strip',
                    'lstrip', 'rstrip', 'replace', 'lower', 'upper',
                    'casefold', 'title', 'translate', 'removeprefix',
                    'removesuffix', 'splitlines', 'expandtabs', 'sub',
-                   'normalize'}
+                   'normalize', 'swapcase', 'capitalize', 'ljust', 'rjust',
+                   'center', 'zfill', 'format'}
 
 
 def x6(e: Engine, rep: Report):
@@ -924,3 +942,161 @@ def x8(e: Engine, rep: Report):
                       reason='arguments are exactly %s' % want)
     if n < 1:
         rep.error('anchor vanished: send_data sites (%d < 1)' % n)
+
+
+# --------------------------------------------------------------------- X10
+def x10(e: Engine, rep: Report):
+    n = 0
+    for meth in ('_get_sender', '_get_recipients'):
+        ctx = e.method_ctx(WSGI, meth)
+        g = e.build(ctx, raises=lambda b, nn, r: set(),
+                    inline=e.inline_same_self(deny=['_b64decode']),
+                    max_depth=3)
+        where = ctx.func.qname
+        rep.functions.add(where)
+
+        def verdict(x, fr, depth=0):
+            if depth > 8 or x is None:
+                return 'UNKNOWN:nesting'
+            if isinstance(x, ast.Constant):
+                return None
+            if isinstance(x, (ast.List, ast.Tuple)):
+                for el in x.elts:
+                    v = verdict(el, fr, depth + 1)
+                    if v:
+                        return v
+                return None
+            if isinstance(x, (ast.ListComp, ast.GeneratorExp)):
+                return verdict(x.elt, fr, depth + 1)
+            if isinstance(x, ast.IfExp):
+                return verdict(x.body, fr, depth + 1) or \
+                    verdict(x.orelse, fr, depth + 1)
+            if isinstance(x, ast.Call):
+                f = x.func
+                nm = f.attr if isinstance(f, ast.Attribute) else (
+                    f.id if isinstance(f, ast.Name) else None)
+                if nm == '_b64decode':
+                    return None      # what is inside is encoded text (X4)
+                if nm in ('list', 'tuple') and len(x.args) == 1:
+                    return verdict(x.args[0], fr, depth + 1)
+                if nm in ADDRESS_CUTTERS:
+                    return 'passes the decoded address through `%s`' % \
+                        ' '.join(ast.unparse(x).split())[:60]
+                vals = common.values_of(g, x, fr)
+                if len(vals) == 1 and vals[0][0] is x:
+                    return 'UNKNOWN:`%s`' % ' '.join(
+                        ast.unparse(x).split())[:50]
+                for v2, f2 in vals:
+                    v = verdict(v2, f2, depth + 1)
+                    if v:
+                        return v
+                return None
+            if isinstance(x, ast.Name):
+                x2, f2 = common.origin(g, x, fr, follow_locals=False)
+                if x2 is not x:
+                    return verdict(x2, f2, depth + 1)
+                defs = [s2 for s2 in g.of_kind('stmt') if s2.frame is fr and
+                        isinstance(s2.ast, ast.Assign) and any(
+                            isinstance(t, ast.Name) and t.id == x.id
+                            for t in s2.ast.targets)]
+                loops = [y for y in g.of_kind('iter') if y.frame is fr and
+                         any(isinstance(t, ast.Name) and t.id == x.id
+                             for t in ast.walk(y.ast.target))]
+                if loops and not defs:
+                    return None      # a piece of the header value
+                if not defs:
+                    return 'UNKNOWN:`%s`' % x.id
+                for d in defs:
+                    v = verdict(d.ast.value, fr, depth + 1)
+                    if v:
+                        return v
+                return None
+            return 'UNKNOWN:`%s`' % ' '.join(ast.unparse(x).split())[:50]
+        for r in g.of_kind('stmt'):
+            if not (isinstance(r.ast, ast.Return) and
+                    r.frame is g.entry.frame and r.ast.value is not None):
+                continue
+            n += 1
+            rep.evaluations += 1
+            v = verdict(r.ast.value, r.frame)
+            if v and v.startswith('UNKNOWN:'):
+                rep.unknown('X10', where, 'returned addresses',
+                            'cannot read where `%s` comes from: %s' % (
+                                ast.unparse(r.ast.value), v[8:]),
+                            loc=r.loc())
+                continue
+            rep.check(v is None, 'X10', where, 'returned addresses are the '
+                      'decoded header values',
+                      'the edge %s: an address the relay sent arrives as a '
+                      'different string (the message is queued for, or '
+                      'bounced to, an address nobody wrote)' % (v or ''),
+                      loc=r.loc(), reason='_b64decode(...) only')
+    if n < 2:
+        rep.error('anchor vanished: returns of _get_sender / '
+                  '_get_recipients (%d < 2)' % n)
+
+
+# --------------------------------------------------------------------- X11
+PRE_CALLBACK_REFUSALS = {'501': 'syntax error in the argument',
+                         '503': 'bad sequence of commands',
+                         '504': 'parameter not implemented',
+                         '552': 'declared SIZE exceeds the limit'}
+
+
+def x11(e: Engine, rep: Report):
+    n = 0
+    for meth, cb in (('_command_MAIL', 'MAIL'), ('_command_RCPT', 'RCPT')):
+        ctx = e.method_ctx(SERVER, meth)
+        g = e.build(ctx, raises=lambda b, nn, r: set(),
+                    inline=e.inline_same_self(deny=['_call_custom_handler',
+                                                    '_gather_params',
+                                                    '_check_close_code']),
+                    max_depth=3)
+        where = ctx.func.qname
+        rep.functions.add(where)
+        cbs = [c for c in g.calls()
+               if e.call_name(c) == '_call_custom_handler']
+        from .. import dataflow
+        after_cb = dataflow.must_events_before(
+            g, lambda x: ['cb'] if x in cbs else [])
+        for c in g.nodes:
+            if c.kind != 'call' or e.call_name(c) != 'send' or \
+                    not isinstance(c.ast.func, ast.Attribute):
+                continue
+            if 'cb' in (after_cb.get(c.id) or ()):
+                continue         # the reply the application shaped
+            rcv = c.ast.func.value
+            code = None
+            if isinstance(rcv, ast.Call) and \
+                    ast.unparse(rcv.func).endswith('Reply') and rcv.args and \
+                    isinstance(rcv.args[0], ast.Constant):
+                code = rcv.args[0].value
+            else:
+                code = common.reply_constant_code(e, rcv, c.ctx)
+                if code is None and isinstance(rcv, ast.Name):
+                    x2, f2 = common.origin(g, rcv, c.frame)
+                    if isinstance(x2, ast.Call) and x2.args and \
+                            ast.unparse(x2.func).endswith('Reply') and \
+                            isinstance(x2.args[0], ast.Constant):
+                        code = x2.args[0].value
+            n += 1
+            rep.evaluations += 1
+            if code is None:
+                rep.unknown('X11', where, 'refusal `%s`' % c.text(40),
+                            'cannot read the code of this reply',
+                            loc=c.loc())
+                continue
+            rep.check(str(code) in PRE_CALLBACK_REFUSALS, 'X11', where,
+                      'refusal %s before the %s callback' % (code, cb),
+                      '%s refuses the command with %s before the '
+                      'application was asked: a refusal at this level that '
+                      'is not one of %s turns away addresses / '
+                      'transactions that are valid (what the client sends '
+                      'and what the server demands have to agree, and no '
+                      'test composes the two)' % (
+                          meth, code, sorted(PRE_CALLBACK_REFUSALS)),
+                      loc=c.loc(), reason=PRE_CALLBACK_REFUSALS.get(
+                          str(code), ''))
+    if n < 6:
+        rep.error('anchor vanished: pre-callback refusals of MAIL / RCPT '
+                  '(%d < 6)' % n)
